@@ -3,7 +3,7 @@
    subjects of C19 and C06; the last theorem composes the three into the bound the monitor applies. *)
 From Coq Require Import List NArith ZArith Bool.
 Import ListNotations.
-From VF Require Import Base Cursor Cursor_proofs.
+From VF Require Import Base Core Core_lemmas Cursor Cursor_proofs Extra_proofs.
 
 (* never itself, never a Dead/Left peer: [el] is "not this node and not Dead/Left" at the tick *)
 Theorem C03_never_self_or_dead : forall el rs s s' x w,
@@ -31,6 +31,19 @@ Theorem C03_two_passes : forall v n ts s,
   exists k, k < 2 * n /\ nth_error (tick_run s ts) k = Some (Some v).
 Proof. exact ticks_until_selected. Qed.
 Print Assumptions C03_two_passes.
+
+(* the hypothesis "the list resetNodes leaves behind still contains the peer" ([tick_ok]) on the Core model of
+   the reap: every record that is not Dead/Left survives it, and only old Dead/Left ones go *)
+Theorem C03_reap_keeps_live : forall c s n r,
+  lk s n = Some r -> dead_or_left (rst r) = false -> lk (do_reap c s) n = Some r.
+Proof. exact reap_keeps_live. Qed.
+Print Assumptions C03_reap_keeps_live.
+
+Theorem C03_reap_removes_only_old_dead : forall c s n r,
+  keys_ok s -> lk s n = Some r -> lk (do_reap c s) n = None ->
+  dead_or_left (rst r) = true /\ (gtd c < now s - rsince r)%Z.
+Proof. exact reap_removes_only_old_dead. Qed.
+Print Assumptions C03_reap_removes_only_old_dead.
 
 (* the time bound: two full passes at the slowest awareness-scaled pace plus the maximum suspicion timeout *)
 Theorem C03_compose : forall (n : nat) pi awmax smax tc (starts : list Z) k tk e dl,
